@@ -9,7 +9,7 @@ from engine.hgen import mk
 from harness.skeletons import PRELUDE, entries
 
 ASSUMPTIONS = [
-    "hostile zoo ZOO_HOSTILE (engine/hlib.py): 41 stdlib values (quick tier: the 17-member ZOO_HOSTILE_Q) incl. Decimal/Fraction/tuple/set/bytearray, "
+    "hostile zoo ZOO_HOSTILE (engine/hlib.py): 48 stdlib values (quick tier: the 21-member ZOO_HOSTILE_Q) incl. Decimal/Fraction/tuple/set/bytearray, "
     "subclasses of str/int/list/dict, v1/v3/v5/nil UUIDs, dicts with tuple/None/mixed keys, opaque object, a class, "
     "a function, +-inf, nan, +-10**400, complex, range; objects whose own special methods raise are out of scope",
     "injection position and zoo member are solver-chosen indices (the solver enumerates the finite product)",
@@ -43,7 +43,8 @@ FUNCS = ("validation/_validator.py:Validator.visit_*", "validation/__init__.py:v
 
 # zoo twins that do not finish inside the quick budget (a concrete str subclass meeting a symbolic substring makes
 # CrossHair realise; the 3-level nest is simply large) - they run in the thorough tier only
-QUICK_SKIP_ZOO = {"str.contains", "str.alpha.contains.len", "nest.dict.list.dict", "any.of.lists", "any.of.lists.in.dict"}
+QUICK_SKIP_ZOO = {"str.contains", "str.alpha.contains.len", "nest.dict.list.dict", "any.of.lists", "any.of.lists.in.dict",
+                  "dict.3keys.relaxed", "dict.3keys"}
 
 FLOAT_EXTRA = [
     ("float.value.precision", "x: float, p: int, v: float", '("float", x, Nil, Nil, pick((1, 2, 15), p))', "v", ["x == x"]),
@@ -57,8 +58,8 @@ def harnesses(tier, seed, active_kf=()):
     out = []
     thorough = tier == "thorough"
     bounds = ("skeleton catalogue; zoo of %d hostile values x every node position of the skeleton's value"
-              % (41 if thorough else 17))
-    chunks = [("ZOO_HOSTILE[0:14]", "a"), ("ZOO_HOSTILE[14:28]", "b"), ("ZOO_HOSTILE[28:41]", "c")] if thorough \
+              % (48 if thorough else 21))
+    chunks = [("ZOO_HOSTILE[0:12]", "a"), ("ZOO_HOSTILE[12:24]", "b"), ("ZOO_HOSTILE[24:36]", "c"), ("ZOO_HOSTILE[36:48]", "d")] if thorough \
         else [("ZOO_HOSTILE_Q", "q")]
     k = 3.0 if thorough else 1.0
     for e in entries():
@@ -70,7 +71,7 @@ def harnesses(tier, seed, active_kf=()):
             # quick tier: the unperturbed shape is pinned to one list length (the .sym twin varies it)
             if "v3: int" in e["params"]:
                 zpre.append("n == 3")
-            elif e["name"].startswith("nest."):
+            elif e["name"].startswith("nest.") and "n: int" in e["params"]:
                 zpre.append("n == 2")
             if e["name"].startswith("str.") and "sub: str" in e["params"]:
                 zpre.append("len(sub) <= 1 and len(v) <= 1")
@@ -88,3 +89,9 @@ def harnesses(tier, seed, active_kf=()):
                       covers=("total",), pre=pre + ["0 <= pos <= 3"], timeout=45 * k, functions=FUNCS, prelude=PRELUDE,
                       bounds=bounds, meta={"hunt": True}))
     return out
+
+
+def extra_checks(tier, seed, replay_dir, active_kf=()):
+    """E2: exact IEEE-754 execution of the float branch (engine/fpsym.py) - see harness/fp_extra.py"""
+    from harness import fp_extra
+    return fp_extra.run("C08", tier, replay_dir, active_kf)
